@@ -44,6 +44,25 @@ class C04(Prop):
                    "zip completes after both inputs have (docs silent; follows the code)"]
     modelled_not_verified = "all Rust code; St2 is a hand transcription of src/ops/{merge,zip,...}.rs"
 
+    # translator tie (DESIGN II.7): module -> pipeline heads built from that observer
+    tie_modules = {
+        "RxModel.GenTie.RcObserver": ['takeuntil', 'skipuntil', 'sample', 'withlatest'],
+        "RxModel.GenTie.Merge": ['merge'],
+        "RxModel.GenTie.WiringMerge": ['merge'],
+        "RxModel.GenTie.Zip": ['zip'],
+        "RxModel.GenTie.WiringZip": ['zip'],
+        "RxModel.GenTie.CombineLatest": ['combine'],
+        "RxModel.GenTie.WiringCombineLatest": ['combine'],
+        "RxModel.GenTie.WithLatestFrom": ['withlatest'],
+        "RxModel.GenTie.WiringWithLatestFrom": ['withlatest'],
+        "RxModel.GenTie.TakeUntil": ['takeuntil'],
+        "RxModel.GenTie.WiringTakeUntil": ['takeuntil'],
+        "RxModel.GenTie.SkipUntil": ['skipuntil'],
+        "RxModel.GenTie.WiringSkipUntil": ['skipuntil'],
+        "RxModel.GenTie.Sample": ['sample'],
+        "RxModel.GenTie.WiringSample": ['sample'],
+    }
+
     def cases(self, tier, seed):
         rng = random.Random(seed)
         la = 2 if tier == "quick" else 3
@@ -76,6 +95,14 @@ class C04(Prop):
             evs = [["sub"]] + pg.rand_events(rng, 2, rng.randint(0, 9))
             fl = "threads" if rng.random() < 0.4 else "local"
             out.append(Case("pipe", fl, [("pipe", [pipe])], evs, {"kind": "random-mix", "op": k}))
+        # wide timelines: 25..70 events over two hot inputs, wide alphabet, late terminals (queue lengths, buffer
+        # sizes and counters beyond the exhaustive ranges)
+        for _ in range(n // 8):
+            k = rng.choice(pg.TWO)
+            pipe = [k, ["hot", "0"], ["hot", "1"]]
+            evs = [["sub"]] + pg.rand_events(rng, 2, rng.randint(25, 70), alpha=list(range(-2, 14)), term_p=0.04)
+            fl = "threads" if rng.random() < 0.4 else "local"
+            out.append(Case("pipe", fl, [("pipe", [pipe])], evs, {"kind": "wide", "op": k}))
         return out
 
     def oracle(self, case, lines, model_lines=None):
